@@ -22,9 +22,9 @@
    [results_general]     the common induction over the history ([step_ok] per operation), from
                          any state that satisfies [pstate_ok].
 
-   The "base panics" allowed here include the backdate-violation assertion (PInv.dallowed): its
-   unreachability (Core: C22_panic_safe_strict) needs the stamp-provenance clauses of
-   Core/DInv.v, which this port does not carry. *)
+   The [_strict] forms say which panics may unwind a request: only an injected fault while a
+   fault switch is on (PInv.dallowed); the backdate-violation assertion is unreachable (stamps
+   never decrease: PInv.ext_mono, PInvSem.frame_changed_lb). *)
 From Salsa Require Import Base.
 From Salsa.Kern Require Import CoreK CoreKFacts.
 From Salsa.Core Require Import Model Spec SpecProofs Inv DurSem.
@@ -88,7 +88,7 @@ Proof.
   intros Hok. destruct (new_revision_facts s) as (A & _ & _ & F).
   destruct (OK_d_inputs uprog NF fm s Hok) as (Rv & Hd3 & Hlow).
   pose proof (new_revision_revs s) as Hr.
-  apply (OK_advance_gen uprog NF fm s); auto.
+  apply (OK_advance_gen uprog rank Hrank NF fm s); auto.
   - rewrite Hr. reflexivity.
   - destruct Rv as (R1 & R2 & R3). rewrite Hr. unfold revs_ok; cbn. lia.
   - intros k. apply (new_revision_lcs s k Rv).
@@ -115,14 +115,14 @@ Lemma OK_d_zalsa_mut s : OK_d s -> OK_d (zalsa_mut fams s).
 Proof.
   intros Hok. unfold zalsa_mut. destruct (d_ccount s =? 255).
   - apply OK_to_d. apply OK_d_new_revision; exact Hok.
-  - apply (OK_d_same uprog NF fm s); auto. apply evicted_sub_sim, evicted_refl.
+  - apply (OK_d_same uprog rank Hrank NF fm s); auto. apply evicted_sub_sim, evicted_refl.
 Qed.
 
 Lemma OK_zalsa_mut s : OK s -> OK (zalsa_mut fams s).
 Proof.
   intros Hok. unfold zalsa_mut. destruct (d_ccount s =? 255).
   - apply OK_d_new_revision. apply OK_to_d; exact Hok.
-  - apply (OK_same uprog NF fm s); auto. apply evicted_sub_sim, evicted_refl.
+  - apply (OK_same uprog rank Hrank NF fm s); auto. apply evicted_sub_sim, evicted_refl.
 Qed.
 
 Lemma evict_all_facts s :
@@ -152,24 +152,24 @@ Lemma db_get_ok fuel s q :
    | PFuel => False
    end) /\ d_in (fst r) = d_in s /\ d_cell (fst r) = d_cell s.
 Proof.
-  intros Hfuel [(H & D & HI) Hst]. cbn zeta.
-  destruct (dlevel_ok uprog noeq rank Hrank NF Hbound fm H D fuel) as [HF HM].
+  intros Hfuel [(H & D & F & HI) Hst]. cbn zeta.
+  destruct (dlevel_ok uprog noeq rank Hrank NF Hbound fm H D F fuel) as [HF HM].
   assert (Hso : stack_ok rank s q) by (intros p Hp; rewrite Hst in Hp; destruct Hp).
   assert (Hq : (rank q <= fuel)%nat) by (specialize (Hfuel q); lia).
-  pose proof (fetch_ok uprog noeq rank Hrank NF Hbound fm H D (level uprog noeq fuel) fuel HF HM q s Hq HI Hso) as Hwp.
+  pose proof (fetch_ok uprog noeq rank Hrank NF Hbound fm H D F (level uprog noeq fuel) fuel HF HM q s Hq HI Hso) as Hwp.
   unfold wp in Hwp.
   destruct (fetch uprog noeq (level uprog noeq fuel) q s) as [s' [[[v d] c] | p |]] eqn:Hf; cbn [fst snd].
   - destruct Hwp as (HI' & He & _ & Hs' & Hv & _). cbn [fst snd] in Hv.
-    split; [|split; [apply (ext_in _ _ _ _ _ _ He) | apply (ext_cell _ _ _ _ _ _ He)]].
+    split; [|split; [apply (ext_in _ _ _ _ _ _ _ He) | apply (ext_cell _ _ _ _ _ _ _ He)]].
     split.
     + rewrite Hv. unfold Inv.E.
       rewrite <- (eval_tb uprog NF (Spec.snap_of s) q). rewrite <- csnap_snap_of.
-      exact (Salsa.Core.InvTop.eval_snap_eq (tprog uprog) _ _ (DInv_snap uprog NF fm H D s HI) NF q).
-    + split; [exists H, D; exact HI' | congruence].
+      exact (Salsa.Core.InvTop.eval_snap_eq (tprog uprog) _ _ (DInv_snap uprog NF fm H D F s HI) NF q).
+    + split; [exists H, D, F; exact HI' | congruence].
   - destruct Hwp as (Ha & HI' & He).
-    split; [|split; [apply (ext_in _ _ _ _ _ _ He) | apply (ext_cell _ _ _ _ _ _ He)]].
+    split; [|split; [apply (ext_in _ _ _ _ _ _ _ He) | apply (ext_cell _ _ _ _ _ _ _ He)]].
     split; [exact Ha|]. split; [|reflexivity].
-    exists H, D. apply (DInv_core_eq prog NF fm H D s'); [repeat split | exact HI'].
+    exists H, D, F. apply (DInv_core_eq prog NF fm H D F s'); [repeat split | exact HI'].
   - destruct Hwp.
 Qed.
 
@@ -177,14 +177,14 @@ Qed.
 Lemma OK_d_same_cells s s' :
   OK_d s -> d_revs s' = d_revs s -> d_in s' = d_in s -> d_memo s' = d_memo s -> OK_d s'.
 Proof.
-  intros Hok Hr Hi Hm. apply (OK_d_same uprog NF fm s); auto.
+  intros Hok Hr Hi Hm. apply (OK_d_same uprog rank Hrank NF fm s); auto.
   rewrite Hm. apply evicted_sub_sim, evicted_refl.
 Qed.
 
 Lemma OK_same_all s s' :
   OK s -> d_revs s' = d_revs s -> d_in s' = d_in s -> d_cell s' = d_cell s -> d_memo s' = d_memo s -> OK s'.
 Proof.
-  intros Hok Hr Hi Hc Hm. apply (OK_same uprog NF fm s); auto.
+  intros Hok Hr Hi Hc Hm. apply (OK_same uprog rank Hrank NF fm s); auto.
   rewrite Hm. apply evicted_sub_sim, evicted_refl.
 Qed.
 
@@ -239,7 +239,7 @@ Proof.
       destruct (N.eqb_spec od 0) as [E0 | Hk0]; [reflexivity|].
       destruct (N.leb_spec od od) as [_ | Hx]; [|lia].
       destruct (N.ltb_spec od 3) as [_ | Hx]; [|lia]. reflexivity. }
-  refine (proj1 (OK_advance_gen uprog NF fm z s2 Hz _ _ _ _ _ _ _)).
+  refine (proj1 (OK_advance_gen uprog rank Hrank NF fm z s2 Hz _ _ _ _ _ _ _)).
   - cbn. rewrite Hcur_r1, Hr. reflexivity.
   - cbn. unfold r1. destruct (od =? D_LOW); [exact Rv1 | apply revs_ok_report_write; exact Rv1].
   - intros k. pose proof (proj1 (new_revision_lcs z k Rv)) as B. fold s1 in B. specialize (Hlc12 k). lia.
@@ -279,7 +279,7 @@ Proof.
     rewrite E0, zalsa_mut_stack. exact Hst. }
   split; [split; assumption|]. split; [|exact Hst1].
   destruct (OK_d_inputs uprog NF fm s1 (OK_to_d uprog NF fm s1 Hn)) as (Hrv1 & _ & Hlow).
-  apply (OK_revs uprog NF fm s1); auto.
+  apply (OK_revs uprog rank Hrank NF fm s1); auto.
   - cbn. apply revs_ok_report_write; exact Hrv1.
   - intros k. unfold lcs; cbn. apply lc_report_write_ge; exact Hrv1.
   - intros Hf k Hk. rewrite (Hlowd Hf). unfold lcs; cbn. rewrite lc_report_write.
@@ -299,16 +299,16 @@ Proof.
   - apply IH. apply (Hclosed q d Hp). apply calls_tb. exact Hc.
 Qed.
 
-Lemma edges_persistable H D s q m :
-  DInv H D s -> d_memo s q = Some m -> pfam (fst q) = true -> all_persistable pfam (m_edges m).
+Lemma edges_persistable H D F s q m :
+  DInv H D F s -> d_memo s q = Some m -> pfam (fst q) = true -> all_persistable pfam (m_edges m).
 Proof.
   intros HI Hm Hp e He. destruct e as [i|d]; [reflexivity|]. cbn.
   apply (reach_closed q d Hp).
-  apply (mo_edges_reach _ _ _ _ _ _ _ _ (inv_memo _ _ _ _ _ _ HI q m Hm) d He).
+  apply (mo_edges_reach _ _ _ _ _ _ _ _ _ (inv_memo _ _ _ _ _ _ _ HI q m Hm) d He).
 Qed.
 
-Lemma snapshot_sub_sim H D s :
-  DInv_d uprog NF fm H D s -> sub_sim (d_memo s) (snap_memo pfam (d_memo s) sfuel).
+Lemma snapshot_sub_sim H D F s :
+  DInv_d uprog NF fm H D F s -> sub_sim (d_memo s) (snap_memo pfam (d_memo s) sfuel).
 Proof.
   intros HI q m' Hs. unfold snap_memo in Hs.
   destruct (d_memo s q) as [m|] eqn:Hm; [|discriminate].
@@ -316,7 +316,7 @@ Proof.
   destruct (pfam (fst q)) eqn:Hp; [|discriminate]. injection Hs as <-.
   exists m. split; [reflexivity|].
   assert (Ha : all_persistable pfam (m_edges m)).
-  { apply (edges_persistable H D (set_cell s (sn_cell (H (cur s)))) q m HI Hm Hp). }
+  { apply (edges_persistable H D F (set_cell s (sn_cell (H (cur s)))) q m HI Hm Hp). }
   unfold memo_sim; cbn. repeat split; auto.
   - unfold lost_untracked. rewrite (flatten_full_persistable pfam (d_memo s) sfuel _ Ha). cbn.
     apply orb_false_r.
@@ -332,18 +332,18 @@ Theorem restore_ok s ext :
   OK_d s -> d_stack s = [] ->
   state_ok true (restore (snapshot pfam sfuel s) ext lru0).
 Proof.
-  intros (H & D & HI) Hst. split; [|reflexivity].
-  apply (OK_d_same uprog NF fm s); try reflexivity; [exists H, D; exact HI|].
-  apply (snapshot_sub_sim H D s HI).
+  intros (H & D & F & HI) Hst. split; [|reflexivity].
+  apply (OK_d_same uprog rank Hrank NF fm s); try reflexivity; [exists H, D, F; exact HI|].
+  apply (snapshot_sub_sim H D F s HI).
 Qed.
 
 Theorem restore_ok_clean s ext :
   OK s -> d_stack s = [] -> d_cell ext = d_cell s ->
   state_ok false (restore (snapshot pfam sfuel s) ext lru0).
 Proof.
-  intros (H & D & HI) Hst Hc. split; [|reflexivity].
-  apply (OK_same uprog NF fm s); try reflexivity; [exists H, D; exact HI | exact Hc|].
-  apply (snapshot_sub_sim H D s). apply DInv_to_d. exact HI.
+  intros (H & D & F & HI) Hst Hc. split; [|reflexivity].
+  apply (OK_same uprog rank Hrank NF fm s); try reflexivity; [exists H, D, F; exact HI | exact Hc|].
+  apply (snapshot_sub_sim H D F s). apply DInv_to_d. exact HI.
 Qed.
 
 End Closed.
@@ -374,8 +374,8 @@ Proof.
 Qed.
 
 Section OneState.
-Variables (H : hist) (D : dhist) (s s2 : db).
-Hypothesis HIm : forall g mg, d_memo s g = Some mg -> dmemo_ok H D s g mg.
+Variables (H : hist) (D : dhist) (F : ghost) (s s2 : db).
+Hypothesis HIm : forall g mg, d_memo s g = Some mg -> dmemo_ok H D F s g mg.
 Hypothesis Hot : forall g w k, obs_ok H D s g w k -> obs_ok H D s2 g w k.
 Hypothesis Hc2 : cur s2 = cur s.
 Hypothesis Hm2 : d_memo s2 = snap_memo pfam (d_memo s) sfuel.
@@ -384,7 +384,7 @@ Let mm := d_memo s.
 Let edge_rank : forall g m c, mm g = Some m -> In (EQ c) (m_edges m) -> (rank c < rank g)%nat.
 Proof.
   intros g m c Hm Hc. apply (reach_rank prog rank Hrank).
-  apply (mo_edges_reach _ _ _ _ _ _ _ _ (HIm g m Hm) c Hc).
+  apply (mo_edges_reach _ _ _ _ _ _ _ _ _ (HIm g m Hm) c Hc).
 Qed.
 
 Section OneMemo.
@@ -420,10 +420,10 @@ Lemma exp_good : forall n g mg, (rank g < n)%nat -> In (EQ g) vis -> mm g = Some
 Proof.
   induction n as [|n IH]; intros g mg Hn Hg Hmg Hvg; [inversion Hn|].
   pose proof (HIm g mg Hmg) as Hok.
-  pose proof (mo_order _ _ _ _ _ _ _ _ Hok) as (O1 & O2 & O3).
+  pose proof (mo_order _ _ _ _ _ _ _ _ _ Hok) as (O1 & O2 & O3).
   destruct (N.eq_dec (m_dur mg) 0) as [Hz | Hnz].
   2:{ apply (good_never prog NF fm H D s2 out v g (m_verified mg) (m_dur mg) Hfm); [lia | lia|].
-      apply (mo_durge _ _ _ _ _ _ _ _ Hok). }
+      apply (mo_durge _ _ _ _ _ _ _ _ _ Hok). }
   destruct Hclosed3 as (V & C & Cov).
   assert (Hedge : forall e, In e (m_edges mg) ->
             match e with
@@ -436,19 +436,19 @@ Proof.
     - intros Hn'. destruct Hcv as [Ho | Hv]; [contradiction|].
       destruct (Hvis_memo e' Hv) as (me & Hme).
       apply (IH e' me); [pose proof (edge_rank g mg e' Hmg He); lia | exact Hv | exact Hme|].
-      pose proof (mo_sync _ _ _ _ _ _ _ _ Hok Hz e' me He Hme). lia. }
+      pose proof (mo_sync _ _ _ _ _ _ _ _ _ Hok Hz e' me He Hme). lia. }
   apply (good_exp prog NF fm H D s2 out v g (m_verified mg) (m_dur mg)).
-  - apply Hot. apply (obs_of_memo prog NF fm H D s g mg Hok).
+  - apply Hot. apply (obs_of_memo prog NF fm H D F s g mg Hok).
   - exact Hvg.
-  - intros x Hx Hux. pose proof (mo_reads_cell _ _ _ _ _ _ _ _ Hok x Hx Hux) as A.
+  - intros x Hx Hux. pose proof (mo_reads_cell _ _ _ _ _ _ _ _ _ Hok x Hx Hux) as A.
     pose proof (Hvt g mg Hg Hmg). congruence.
-  - intros i Hi. apply (Hedge _ (mo_in _ _ _ _ _ _ _ _ Hok i Hi)).
+  - intros i Hi. apply (Hedge _ (mo_in _ _ _ _ _ _ _ _ _ Hok i Hi)).
   - intros d' Hd' Hn'. destruct (edge_in_dec (EQ d') (m_edges mg)) as [HinL | HnL].
     + apply (Hedge _ HinL). exact Hn'.
     + apply (good_subst H D s s2 (m_edges mg) out (m_verified mg) v d' Hot); [lia | exact Hvg | | |].
       * intros i Hi. apply (Hedge _ Hi).
       * intros e He Hne. apply (Hedge _ He). exact Hne.
-      * apply (mo_q _ _ _ _ _ _ _ _ Hok (Hvt g mg Hg Hmg) d' Hd' HnL).
+      * apply (mo_q _ _ _ _ _ _ _ _ _ Hok (Hvt g mg Hg Hmg) d' Hd' HnL).
 Qed.
 
 Lemma flat_reach g : In (EQ g) out -> reach prog q g.
@@ -456,9 +456,9 @@ Proof.
   intros Hg. destruct (flatten_under pfam mm sfuel L) as [Uo _]. specialize (Uo _ Hg).
   assert (G : forall e, under mm L e -> forall g0, e = EQ g0 -> reach prog q g0).
   { intros e Hu. induction Hu as [e He | g1 m1 e Hu IH Hm1 He]; intros g0 ->.
-    - apply (mo_edges_reach _ _ _ _ _ _ _ _ (HIm q m Hm) g0 He).
+    - apply (mo_edges_reach _ _ _ _ _ _ _ _ _ (HIm q m Hm) g0 He).
     - eapply reach_trans; [apply (IH g1 eq_refl)|].
-      apply (mo_edges_reach _ _ _ _ _ _ _ _ (HIm g1 m1 Hm1) g0 He). }
+      apply (mo_edges_reach _ _ _ _ _ _ _ _ _ (HIm g1 m1 Hm1) g0 He). }
   apply (G _ Uo g eq_refl).
 Qed.
 
@@ -472,7 +472,7 @@ Proof.
   destruct (m_val m) as [x|] eqn:Hx; [|discriminate].
   destruct (pfam (fst q)) eqn:Hp; [|discriminate]. intros E0. injection E0 as <-.
   pose proof (HIm q m Hm) as Hok.
-  pose proof (mo_order _ _ _ _ _ _ _ _ Hok) as (O1 & O2 & O3).
+  pose proof (mo_order _ _ _ _ _ _ _ _ _ Hok) as (O1 & O2 & O3).
   set (L := m_edges m). set (L' := flatten pfam mm sfuel L).
   assert (Hes : forall e, In e L -> (erank rank e < sfuel)%nat).
   { intros e _. destruct e as [i|c]; cbn; [specialize (Hsfuel q); lia | apply Hsfuel]. }
@@ -481,7 +481,7 @@ Proof.
   { intros i Hi. destruct (Cov _ Hi) as [Ho | Hv]; [exact Ho|].
     destruct (V _ Hv) as (g' & mg & E0 & _). discriminate. }
   constructor; cbn [m_verified m_edges m_untracked m_dur].
-  - intros i Hi. apply Hcov_in. apply (mo_in _ _ _ _ _ _ _ _ Hok i Hi).
+  - intros i Hi. apply Hcov_in. apply (mo_in _ _ _ _ _ _ _ _ _ Hok i Hi).
   - intros Hu d Hd Hn. apply orb_false_iff in Hu. destruct Hu as [Hu Hlost].
     assert (Hvt : forall g mg, In (EQ g) (snd (flatten_full pfam mm sfuel L)) -> mm g = Some mg ->
               m_untracked mg = false).
@@ -495,17 +495,17 @@ Proof.
       congruence. }
     destruct (N.eq_dec (m_dur m) 0) as [Hz | Hnz].
     2:{ apply (good_never prog NF fm H D s2 L' (m_verified m) d (m_verified m) (m_dur m) Hfm); [lia | lia|].
-        apply (durge_q _ _ _ _ _ _ _ _ (mo_durge _ _ _ _ _ _ _ _ Hok) Hd). }
+        apply (durge_q _ _ _ _ _ _ _ _ (mo_durge _ _ _ _ _ _ _ _ _ Hok) Hd). }
     assert (Hedge : forall e, In (EQ e) L -> ~ In (EQ e) L' -> good H D s2 L' (m_verified m) e).
     { intros e He Hne. destruct (Cov _ He) as [Ho | Hv]; [contradiction|].
       destruct (V _ Hv) as (g' & me & E0 & Hme). injection E0 as <-.
       apply (exp_good q m Hvt (S (rank e)) e me (le_n _) Hv Hme).
-      apply (mo_sync _ _ _ _ _ _ _ _ Hok Hz e me He Hme). }
+      apply (mo_sync _ _ _ _ _ _ _ _ _ Hok Hz e me He Hme). }
     destruct (edge_in_dec (EQ d) L) as [HinL | HnL].
     + apply Hedge; assumption.
     + apply (good_subst H D s s2 L L' (m_verified m) (m_verified m) d Hot); [lia | lia | exact Hcov_in | exact Hedge|].
-      apply (mo_q _ _ _ _ _ _ _ _ Hok Hu d Hd HnL).
-  - intros y Hy Huy. rewrite (mo_reads_cell _ _ _ _ _ _ _ _ Hok y Hy Huy). reflexivity.
+      apply (mo_q _ _ _ _ _ _ _ _ _ Hok Hu d Hd HnL).
+  - intros y Hy Huy. rewrite (mo_reads_cell _ _ _ _ _ _ _ _ _ Hok y Hy Huy). reflexivity.
   - intros g Hg. apply (flat_reach q m Hm g Hg).
   - left. exact Hfm.
   - intros Hz d md' Hd Hmd'. rewrite Hm2 in Hmd'. unfold snap_memo in Hmd'. fold mm in Hmd'.
@@ -513,7 +513,7 @@ Proof.
     destruct (m_val md); [|discriminate]. destruct (pfam (fst d)); [|discriminate].
     injection Hmd' as <-. cbn.
     destruct (flatten_fn pfam mm sfuel L d Hd) as [HinL | Hnone]; [|congruence].
-    apply (mo_sync _ _ _ _ _ _ _ _ Hok Hz d md HinL Hmd).
+    apply (mo_sync _ _ _ _ _ _ _ _ _ Hok Hz d md HinL Hmd).
 Qed.
 
 End OneState.
@@ -528,25 +528,26 @@ Proof.
 Qed.
 
 (* the transfer, for a target s2 that has the restored memo table and the revisions and inputs of s *)
-Lemma restore_transfer H D s s2 :
-  DInv_d uprog NF fm H D s ->
+Lemma restore_transfer H D F s s2 :
+  DInv_d uprog NF fm H D F s ->
   d_revs s2 = d_revs s -> d_in s2 = d_in s -> d_memo s2 = snap_memo pfam (d_memo s) sfuel ->
   (forall c, sn_cell (H (cur s2)) c = d_cell s2 c) ->
-  DInv H D s2.
+  DInv H D (lift s F) s2.
 Proof.
   intros HI Hr Hi Hmm Hcell.
-  destruct (DInv_d_facts uprog NF fm H D s HI) as (F1 & F2 & F3 & F4 & F5 & F6 & F7 & F8 & F9 & F10).
+  destruct (DInv_d_facts uprog NF fm H D F s HI) as (F1 & F2 & F3 & F4 & F5 & F6 & F7 & F8 & F9 & F10).
   assert (Hc : cur s2 = cur s) by (unfold cur; rewrite Hr; reflexivity).
   assert (Hcle : cur s <= cur s2) by lia.
   assert (Hlc : forall k, lcs s k <= lcs s2 k) by (intros k; unfold lcs; rewrite Hr; lia).
   assert (Hsub : sub_core (d_memo s) (d_memo s2)) by (rewrite Hmm; apply snapshot_sub_core).
   assert (Hpast : forall r, r <= cur s -> H r = H r /\ forall i, D r i = D r i) by (intros; split; reflexivity).
-  assert (HIm : forall g mg, d_memo s g = Some mg -> dmemo_ok H D s g mg).
-  { intros g mg Hg. apply (dmemo_ok_same prog NF fm H D (set_cell s (sn_cell (H (cur s))))); [reflexivity | reflexivity|].
-    apply (inv_memo _ _ _ _ _ _ HI g mg Hg). }
-  apply (DInv_transfer uprog NF fm H D H D s s2 HI Hcle Hlc Hsub Hpast); rewrite ?Hc, ?Hi, ?Hr; auto.
+  assert (Hstamp : forall i, f_changed (d_in s i) <= f_changed (d_in s2 i)) by (intros i; rewrite Hi; lia).
+  assert (HIm : forall g mg, d_memo s g = Some mg -> dmemo_ok H D F s g mg).
+  { intros g mg Hg. apply (dmemo_ok_same prog NF fm H D F (set_cell s (sn_cell (H (cur s))))); [reflexivity | reflexivity | reflexivity|].
+    apply (inv_memo _ _ _ _ _ _ _ HI g mg Hg). }
+  apply (DInv_transfer uprog rank Hrank NF fm H D F H D s s2 HI Hcle Hlc Hsub Hpast Hstamp); rewrite ?Hc, ?Hi, ?Hr; auto.
   - intros q m' Hm'.
-    apply (flat_edges_ok H D s s2 HIm (obs_transfer uprog NF fm H D H D s s2 HI Hcle Hlc Hsub Hpast) Hc Hmm q m' Hm').
+    apply (flat_edges_ok H D F s s2 HIm (obs_transfer uprog NF fm H D F H D s s2 HI Hcle Hlc Hsub Hpast) Hc Hmm q m' Hm').
   - rewrite <- Hc. exact Hcell.
   - intros r i Hlt Hl. apply F8; [exact Hlt|]. unfold lcs in *. rewrite Hr in Hl. exact Hl.
   - intros Hf k Hk. specialize (F10 Hf k Hk). unfold lcs in *. rewrite Hr. exact F10.
@@ -556,19 +557,19 @@ Theorem restore_flat_ok s ext :
   OK_d s -> d_stack s = [] ->
   state_ok true (restore (snapshot pfam sfuel s) ext lru0).
 Proof.
-  intros (H & D & HI) Hst. split; [|reflexivity].
-  exists H, D. unfold DInv_d.
-  apply (restore_transfer H D s _ HI); [reflexivity | reflexivity | reflexivity | intros c; reflexivity].
+  intros (H & D & F & HI) Hst. split; [|reflexivity].
+  exists H, D, (lift s F). unfold DInv_d.
+  apply (restore_transfer H D F s _ HI); [reflexivity | reflexivity | reflexivity | intros c; reflexivity].
 Qed.
 
 Theorem restore_flat_ok_clean s ext :
   OK s -> d_stack s = [] -> d_cell ext = d_cell s ->
   state_ok false (restore (snapshot pfam sfuel s) ext lru0).
 Proof.
-  intros (H & D & HI) Hst Hce. split; [|reflexivity].
-  exists H, D.
-  apply (restore_transfer H D s _ (DInv_to_d uprog NF fm H D s HI)); [reflexivity | reflexivity | reflexivity|].
-  intros c. cbn. rewrite Hce. apply (inv_cell _ _ _ _ _ _ HI).
+  intros (H & D & F & HI) Hst Hce. split; [|reflexivity].
+  exists H, D, (lift s F).
+  apply (restore_transfer H D F s _ (DInv_to_d uprog NF fm H D F s HI)); [reflexivity | reflexivity | reflexivity|].
+  intros c. cbn. rewrite Hce. apply (inv_cell _ _ _ _ _ _ _ HI).
 Qed.
 
 End Flat.
@@ -609,7 +610,7 @@ Lemma step_ok fuel now since p o :
   match o with
   | OGet q =>
       now = false ->
-      (Statement.get_ok uprog NF (fst (pstep fuel p o)) q (snd (pstep fuel p o)) \/
+      (Statement.get_ok_strict uprog NF p (fst (pstep fuel p o)) q (snd (pstep fuel p o)) \/
        snd (pstep fuel p o) = PPanic PUninit) /\
       pstate_ok false since (fst (pstep fuel p o))
   | OSetCell _ _ => pstate_ok true true (fst (pstep fuel p o))
@@ -659,7 +660,7 @@ Proof.
       * left. left. f_equal. rewrite Hv. unfold Spec.snap_of. cbn. rewrite Hin, Hcell. reflexivity.
       * split; [exact Hs'|]. split; [discriminate|]. apply (img_keep false since p); [exact Hok | intros _; exact Hcell].
     + destruct Hres as [Ha Hs']. split.
-      * destruct Ha as [-> | [[-> _] | [-> _]]]; [left; right; eexists; reflexivity | left; right; eexists; reflexivity | right; reflexivity].
+      * destruct Ha as [[-> Hc] | [-> _]]; [left; right; split; [reflexivity | exact Hc] | right; reflexivity].
       * split; [exact Hs'|]. split; [discriminate|]. apply (img_keep false since p); [exact Hok | intros _; exact Hcell].
     + destruct Hres.
   - (* OSetLru *)
@@ -674,8 +675,8 @@ Proof.
     split.
     + split; [|rewrite A4, zalsa_mut_stack; exact Hst].
       destruct now; destruct Hdb as [A _].
-      * apply (OK_d_same uprog NF fm (zalsa_mut fams s)); auto; [apply OK_d_zalsa_mut; exact A | apply evicted_sub_sim; exact A5].
-      * apply (OK_same uprog NF fm (zalsa_mut fams s)); auto; [apply OK_zalsa_mut; exact A | apply evicted_sub_sim; exact A5].
+      * apply (OK_d_same uprog rank Hrank NF fm (zalsa_mut fams s)); auto; [apply OK_d_zalsa_mut; exact A | apply evicted_sub_sim; exact A5].
+      * apply (OK_same uprog rank Hrank NF fm (zalsa_mut fams s)); auto; [apply OK_zalsa_mut; exact A | apply evicted_sub_sim; exact A5].
     + split; [exact Hns|]. apply (img_keep now since p); [exact Hok|]. intros _. rewrite A3. apply zalsa_mut_cell.
   - (* OSnapshot *)
     intros ->. split; [exact Hdb|]. split; [discriminate|].
@@ -705,11 +706,11 @@ Theorem results_general fuel :
     (In ORestore ops -> restore_good) ->
     pstate_ok now since p ->
     Statement.known_class_free uprog noeq pfam fams lru0 sfuel fuel p ops ->
-    Statement.results_ok uprog noeq pfam fams lru0 NF sfuel fuel p ops.
+    Statement.results_ok_strict uprog noeq pfam fams lru0 NF sfuel fuel p ops.
 Proof.
   intros Hfuel. induction ops as [|o ops IH]; intros now since p Hdur Hlow Hwf Hcl Hok Hk; [exact I|].
   inversion Hdur as [|? ? Hdo Hdurs]; subst. inversion Hlow as [|? ? Hlo Hlows]; subst.
-  cbn [Statement.results_ok Statement.known_class_free] in *. destruct Hk as [Hk1 Hk2].
+  cbn [Statement.results_ok_strict Statement.known_class_free] in *. destruct Hk as [Hk1 Hk2].
   assert (Hcl1 : o = ORestore -> restore_good) by (intros ->; apply Hcl; now left).
   assert (Hcl2 : In ORestore ops -> restore_good) by (intros Hin; apply Hcl; now right).
   pose proof (step_ok fuel now since p o Hfuel Hdo Hlo Hcl1 Hok) as Hs.
@@ -733,7 +734,7 @@ Lemma init_ok iv idur :
 Proof.
   intros Hid Hlow. split; [|split; [discriminate | intros img Hi; discriminate]].
   split; [|reflexivity].
-  exists (fun _ => csnap (init iv idur lru0)), (fun _ => idur).
+  exists (fun _ => csnap (init iv idur lru0)), (fun _ => idur), (fun _ => None).
   constructor.
   - cbn. unfold REV_START. lia.
   - cbn. unfold revs_ok, REV_START; cbn. lia.
@@ -744,6 +745,7 @@ Proof.
   - intros r i. apply Hid.
   - intros r i _ _. split; reflexivity.
   - intros q m Hm. discriminate.
+  - intros d rho c _ HF. discriminate.
   - intros Hf r i. apply (Hlow Hf).
   - intros Hf k Hk. unfold lcs, init; cbn.
     destruct (lc_cases {| r_cur := REV_START; r_med := REV_START; r_high := REV_START |} k)
@@ -782,13 +784,13 @@ Let no_low ops : Forall (low_op false) ops.
 Proof. apply Forall_forall. intros o _ Hf. discriminate. Qed.
 
 (* histories WITHOUT restore (snapshots allowed): C01 for the persist-mode model *)
-Theorem results_no_restore fuel sfuel :
+Theorem results_no_restore_strict fuel sfuel :
   (forall p, (rank p < fuel)%nat) ->
   forall iv idur ops,
     (forall i, idur i <= 3) -> Forall Statement.dur_op ops -> Statement.wf_ops false false ops ->
     ~ In ORestore ops ->
     Statement.known_class_free prog noeq pfam fams lru0 sfuel fuel (pinit iv idur lru0) ops ->
-    Statement.results_ok prog noeq pfam fams lru0 NF sfuel fuel (pinit iv idur lru0) ops.
+    Statement.results_ok_strict prog noeq pfam fams lru0 NF sfuel fuel (pinit iv idur lru0) ops.
 Proof.
   intros Hfuel iv idur ops Hid Hdur Hwf Hnr Hk.
   apply (results_general prog noeq pfam fams lru0 rank (calls_below_tb prog rank Hrank) NF Hbound sfuel false fuel Hfuel
@@ -797,28 +799,28 @@ Proof.
 Qed.
 
 (* histories with snapshots AND restores, when persisted functions only call persisted ones *)
-Theorem results_closed fuel sfuel :
+Theorem results_closed_strict fuel sfuel :
   (forall p, (rank p < fuel)%nat) ->
   Statement.persisted_closed prog pfam ->
   forall iv idur ops,
     (forall i, idur i <= 3) -> Forall Statement.dur_op ops -> Statement.wf_ops false false ops ->
     Statement.known_class_free prog noeq pfam fams lru0 sfuel fuel (pinit iv idur lru0) ops ->
-    Statement.results_ok prog noeq pfam fams lru0 NF sfuel fuel (pinit iv idur lru0) ops.
+    Statement.results_ok_strict prog noeq pfam fams lru0 NF sfuel fuel (pinit iv idur lru0) ops.
 Proof.
   intros Hfuel Hcl iv idur ops Hid Hdur Hwf Hk.
   apply (results_general prog noeq pfam fams lru0 rank (calls_below_tb prog rank Hrank) NF Hbound sfuel false fuel Hfuel
-           ops false false _ Hdur (no_low ops) Hwf); [intros _; apply restore_good_closed; exact Hcl | | exact Hk].
+           ops false false _ Hdur (no_low ops) Hwf); [intros _; exact (restore_good_closed prog pfam lru0 rank (calls_below_tb prog rank Hrank) NF sfuel false Hcl) | | exact Hk].
   apply init_ok; [exact Hid | discriminate].
 Qed.
 
 (* histories with snapshots AND restores, EVERY program and choice of persisted functions
    (dependencies are flattened away to any depth), when all durabilities are LOW *)
-Theorem results_low fuel sfuel :
+Theorem results_low_strict fuel sfuel :
   (forall p, (rank p < fuel)%nat) -> (forall p, (S (rank p) < sfuel)%nat) ->
   forall iv ops,
     Forall Statement.low_op ops -> Statement.wf_ops false false ops ->
     Statement.known_class_free prog noeq pfam fams lru0 sfuel fuel (pinit iv (fun _ => 0) lru0) ops ->
-    Statement.results_ok prog noeq pfam fams lru0 NF sfuel fuel (pinit iv (fun _ => 0) lru0) ops.
+    Statement.results_ok_strict prog noeq pfam fams lru0 NF sfuel fuel (pinit iv (fun _ => 0) lru0) ops.
 Proof.
   intros Hfuel Hsfuel iv ops Hlow Hwf Hk.
   assert (Hdur : Forall Statement.dur_op ops).
@@ -830,6 +832,43 @@ Proof.
   apply (results_general prog noeq pfam fams lru0 rank (calls_below_tb prog rank Hrank) NF Hbound sfuel true fuel Hfuel
            ops false false _ Hdur Hl Hwf); [intros _; exact (restore_good_flat prog pfam lru0 rank (calls_below_tb prog rank Hrank) NF sfuel true eq_refl Hsfuel) | | exact Hk].
   apply init_ok; [intros i; lia | intros _ i; reflexivity].
+Qed.
+
+
+(* ... and in the terms of the full statement (any panic of the base model allowed) *)
+Theorem results_no_restore fuel sfuel :
+  (forall p, (rank p < fuel)%nat) ->
+  forall iv idur ops,
+    (forall i, idur i <= 3) -> Forall Statement.dur_op ops -> Statement.wf_ops false false ops ->
+    ~ In ORestore ops ->
+    Statement.known_class_free prog noeq pfam fams lru0 sfuel fuel (pinit iv idur lru0) ops ->
+    Statement.results_ok prog noeq pfam fams lru0 NF sfuel fuel (pinit iv idur lru0) ops.
+Proof.
+  intros Hfuel iv idur ops Hid Hdur Hwf Hnr Hk. apply Statement.results_ok_of_strict.
+  apply (results_no_restore_strict fuel sfuel Hfuel iv idur ops Hid Hdur Hwf Hnr Hk).
+Qed.
+
+Theorem results_closed fuel sfuel :
+  (forall p, (rank p < fuel)%nat) ->
+  Statement.persisted_closed prog pfam ->
+  forall iv idur ops,
+    (forall i, idur i <= 3) -> Forall Statement.dur_op ops -> Statement.wf_ops false false ops ->
+    Statement.known_class_free prog noeq pfam fams lru0 sfuel fuel (pinit iv idur lru0) ops ->
+    Statement.results_ok prog noeq pfam fams lru0 NF sfuel fuel (pinit iv idur lru0) ops.
+Proof.
+  intros Hfuel Hcl iv idur ops Hid Hdur Hwf Hk. apply Statement.results_ok_of_strict.
+  apply (results_closed_strict fuel sfuel Hfuel Hcl iv idur ops Hid Hdur Hwf Hk).
+Qed.
+
+Theorem results_low fuel sfuel :
+  (forall p, (rank p < fuel)%nat) -> (forall p, (S (rank p) < sfuel)%nat) ->
+  forall iv ops,
+    Forall Statement.low_op ops -> Statement.wf_ops false false ops ->
+    Statement.known_class_free prog noeq pfam fams lru0 sfuel fuel (pinit iv (fun _ => 0) lru0) ops ->
+    Statement.results_ok prog noeq pfam fams lru0 NF sfuel fuel (pinit iv (fun _ => 0) lru0) ops.
+Proof.
+  intros Hfuel Hsfuel iv ops Hlow Hwf Hk. apply Statement.results_ok_of_strict.
+  apply (results_low_strict fuel sfuel Hfuel Hsfuel iv ops Hlow Hwf Hk).
 Qed.
 
 End Final.
